@@ -35,12 +35,13 @@ inductive Err
   | axis           -- ValueError: the axes can be 'x', 'y' or 'z'
   | angleIndex     -- IndexError: more tilt angles than images
   | binFactor      -- binning factor 0
+  | scalarIdx      -- TypeError: a text index file with a single entry is loaded as a 0-d array (`np.loadtxt`) and cannot be iterated
 deriving Repr, DecidableEq
 
 def Err.name : Err → String
   | .cropWidth => "crop-width" | .cropHeight => "crop-height" | .index => "index" | .emptyIdx => "empty-indices"
   | .singleTilt => "single-tilt" | .emptyStack => "empty-stack" | .axis => "axis" | .angleIndex => "angle-index"
-  | .binFactor => "bin-factor"
+  | .binFactor => "bin-factor" | .scalarIdx => "scalar-index"
 
 variable {α ι κ β : Type}
 
@@ -103,6 +104,25 @@ def removeTilts (base1 : Bool) (idxs : List Int) (imgs : List ι) : Except Err (
     if idx0.any (fun i => i < 0 || i ≥ (imgs.length : Int)) then .error .index
     else .ok ((imgs.zipIdx.filter (fun p => !(idx0.contains (p.2 : Int)))).map (·.1))
 
+/-- how `idx_to_remove` reaches `ioutils.indices_load` -/
+inductive IdxSrc
+  | list   -- a python list or a numpy array
+  | txt    -- a text file, one index per line (`np.loadtxt(dtype=int)`)
+  | csv    -- a csv file with a boolean column `ToBeRemoved`: the row positions of the `True` cells, always 0-based
+deriving Repr, DecidableEq
+
+/-- `numbered_from_1` as the caller passes it (`none`: keyword omitted, the signature default applies) -/
+def base1Of (o : Option Bool) : Bool := o.getD Gen.C15.defaultNumberedFrom1
+
+/-- `indices_load` for the three sources: only lists/arrays are refused when empty; a csv file forces 0-based numbering;
+a text file with exactly one entry comes back from `np.loadtxt` as a 0-d array, on which the bounds check of
+`remove_tilts` raises `TypeError` -/
+def removeTiltsSrc (src : IdxSrc) (base1 : Bool) (idxs : List Int) (imgs : List ι) : Except Err (List ι) :=
+  match src with
+  | .list => removeTilts base1 idxs imgs
+  | .txt => if idxs.length = 1 then .error .scalarIdx else if idxs.isEmpty then .ok imgs else removeTilts base1 idxs imgs
+  | .csv => if idxs.isEmpty then .ok imgs else removeTilts false idxs imgs
+
 /-- the loop `for i in range(n): if i % 2 == r: even.append(...) else: odd.append(...)`,
 written as two mutually recursive selections (`r = 0`: the first image is even) -/
 def sel0 : List ι → List ι
@@ -144,6 +164,20 @@ def flipAll : List String → L3 α → Except Err (L3 α)
     match flipNamed a with
     | some k => flipAll as (flipAxis k v)
     | none => .error .axis
+
+/-- the `axes` argument as the caller passes it -/
+inductive AxesArg
+  | one (a : String)          -- a single string: wrapped into a one-element list
+  | list (as : List String)   -- a list of strings
+  | other                     -- anything else (a tuple, …): wrapped into a one-element list whose element equals no axis name
+deriving Repr, DecidableEq
+
+/-- `if not isinstance(axes, list): axes = [axes]`, then the loop -/
+def flipArg (arg : AxesArg) (v : L3 α) : Except Err (L3 α) :=
+  match arg with
+  | .one a => flipAll [a] v
+  | .list as => flipAll as v
+  | .other => .error .axis
 
 /-- `full // 2 - new // 2` -/
 def cropStart (full new : Nat) : Nat := full / 2 - new / 2
@@ -188,6 +222,12 @@ def opSplit (a : A3 α) : Except Err (List (A3 α)) :=
 def opFlip (axes : List String) (a : A3 α) : Except Err (List (A3 α)) :=
   (flipAll axes a.v).map fun v => [{ a with v := v }]
 
+def opFlipArg (arg : AxesArg) (a : A3 α) : Except Err (List (A3 α)) :=
+  (flipArg arg a.v).map fun v => [{ a with v := v }]
+
+def opRemoveSrc (src : IdxSrc) (base1 : Bool) (idxs : List Int) (a : A3 α) : Except Err (List (A3 α)) :=
+  (removeTiltsSrc src base1 idxs a.v).map fun v => [{ a with d0 := v.length, v := v }]
+
 def opCrop (newW newH : Option Nat) (a : A3 α) : Except Err (List (A3 α)) := (crop newW newH a).map ([·])
 
 def opBin [Add α] [OfNat α 0] [Div α] [NatCast α] (b : Nat) (a : A3 α) : Except Err (List (A3 α)) :=
@@ -217,5 +257,20 @@ def pipeline (d : α) (inXyz outZyx writeFile : Bool) (op : A3 α → Except Err
     Except Err (Out α) :=
   (op (load d inXyz inp)).map fun rs =>
     { returned := rs.map (present d outZyx), written := if writeFile then rs.map writeMrc else [] }
+
+/-- `input_order` / `output_order` as the caller passes them (`none`: keyword omitted, the signature default applies) -/
+def inXyzOf (o : Option Bool) : Bool := o.getD (Gen.C15.defaultInputOrder == "xyz")
+def outZyxOf (o : Option Bool) : Bool := o.getD (Gen.C15.defaultOutputOrder == Gen.C15.currentOrder)
+
+/-! ### the casts back to the stack's dtype (`write_out(..., data_type=self.data_type)` and `correct_order`'s `astype`) -/
+
+def A3.map (c : α → β) (a : A3 α) : A3 β := { d0 := a.d0, d1 := a.d1, d2 := a.d2, v := a.v.map (fun img => img.map (fun row => row.map c)) }
+def Mrc.map (c : α → β) (f : Mrc α) : Mrc β := { nx := f.nx, ny := f.ny, nz := f.nz, data := f.data.map c }
+
+/-- both the returned stacks and the written files go through the same cast -/
+def Out.cast (c : α → β) (o : Out α) : Out β := { returned := o.returned.map (A3.map c), written := o.written.map (Mrc.map c) }
+
+/-- `astype(int16)` of a (float) block mean: truncation toward zero -/
+def truncI (q : Rat) : Int := Int.tdiv q.num q.den
 
 end CryoCat.C15
